@@ -8,6 +8,7 @@ import (
 	"fmt"
 	"os"
 	"path/filepath"
+	"runtime/pprof"
 	"strings"
 	"time"
 
@@ -44,10 +45,20 @@ func workerMain(args []string) int {
 	traces := fs.Int("traces", 3, "validation traces to record")
 	tier := fs.String("tier", "quick", "quick | thorough (value of the verifBound intrinsic)")
 	seed := fs.Int("seed", 0, "solver random seed")
-	var overlays overlayList
+	frontierN := fs.Int("frontier", 0, "phase 1: expand breadth-first until this many prefixes are pending, write them to -frontier-file")
+	frontierFile := fs.String("frontier-file", "", "prefix file (written in phase 1, read in phase 2)")
+	share := fs.String("share", "", "phase 2: i/n — explore prefixes i, i+n, ... of -frontier-file")
+	cpuprof := fs.String("cpuprofile", "", "write a CPU profile")
+	var overlays, setups overlayList
 	fs.Var(&overlays, "overlay", "real-file=virtual-name-in-package (repeatable)")
+	fs.Var(&setups, "setup", "setup function run once after package initialisation (repeatable)")
 	fs.Parse(args)
 
+	if *cpuprof != "" {
+		f, _ := os.Create(*cpuprof)
+		pprof.StartCPUProfile(f)
+		defer pprof.StopCPUProfile()
+	}
 	wo := &WorkerOutput{}
 	code := 0
 	func() {
@@ -78,6 +89,14 @@ func workerMain(args []string) int {
 		}
 		wo.LoadS = time.Since(t0).Seconds()
 		t1 := time.Now()
+		for _, sname := range setups {
+			sf := prog.Package(prog.Pkgs[0].PkgPath).Func(sname)
+			if sf == nil {
+				wo.Error = "no such setup function: " + sname
+				return
+			}
+			prog.Setups = append(prog.Setups, sf)
+		}
 		if err := prog.Init(); err != nil {
 			wo.Error = "init: " + err.Error()
 			return
@@ -99,12 +118,35 @@ func workerMain(args []string) int {
 		if *known != "" {
 			opt.Known = loadKnown(*known)
 		}
+		opt.FrontierTarget = *frontierN
+		if *share != "" {
+			var i, n int
+			fmt.Sscanf(*share, "%d/%d", &i, &n)
+			fb, err := os.ReadFile(*frontierFile)
+			if err != nil {
+				wo.Error = err.Error()
+				return
+			}
+			var all [][]interp.Decision
+			json.Unmarshal(fb, &all)
+			for k := i; k < len(all); k += n {
+				opt.Initial = append(opt.Initial, all[k])
+			}
+			if len(opt.Initial) == 0 {
+				wo.Result = &interp.Result{Harness: *fn, Reach: map[string]int{}, Functions: map[string]int{}}
+				return
+			}
+		}
 		res, err := prog.Explore(f, opt)
 		if err != nil {
 			wo.Error = "explore: " + err.Error()
 			return
 		}
 		wo.Result = res
+		if *frontierN > 0 && *frontierFile != "" {
+			fb, _ := json.Marshal(interp.LastFrontier)
+			os.WriteFile(*frontierFile, fb, 0o644)
+		}
 		for s := range interp.StubsUsed {
 			wo.StubsUsed = append(wo.StubsUsed, s)
 		}
